@@ -47,6 +47,18 @@ def meta_p(root, k):
     return CHILD(CHILD(root, SEG_BLOBS), METASEG(k))
 
 
+def tmp_blob_p(root, k):
+    return CHILD(CHILD(root, SEG_BLOBS), TMPSEG(k))
+
+
+def tmp_meta_p(root, k):
+    return CHILD(CHILD(root, SEG_BLOBS), METATMPSEG(k))
+
+
+def tmp_loc_p(data, p):
+    return CHILD(locdir_p(data, p), LINKTMPSEG(FLATSEG(TAILSEG(p))))
+
+
 def locdir_p(data, p):
     return CHILD(data, FLATSEG(HEADSEG(p)))
 
@@ -151,6 +163,12 @@ class _Local(FnSpec):
 
         if isinstance(op, ast.Add) and isinstance(a, Sym) and a.ty == KEY and b == ".meta":
             return Sym(METASEG(a.term), SEG)
+        if isinstance(op, ast.Add) and isinstance(a, Sym) and a.ty == KEY and b == ".tmp":
+            return Sym(TMPSEG(a.term), SEG)
+        if isinstance(op, ast.Add) and isinstance(a, Sym) and a.ty == KEY and b == ".meta.tmp":
+            return Sym(METATMPSEG(a.term), SEG)
+        if isinstance(op, ast.Add) and isinstance(a, Sym) and a.ty == SEG and b == ".tmp_link":
+            return Sym(LINKTMPSEG(a.term), SEG)
         return NotImplemented
 
     def method_other(self, eng, recv, name, args, kwargs, node):
@@ -179,6 +197,8 @@ class _Local(FnSpec):
         k = z3.Const(sv.fresh_name("k"), KEY.sort())
         q = z3.Const(sv.fresh_name("q"), PATH.sort())
         a = z3.Const(sv.fresh_name("a"), P)
+        sg = z3.Const(sv.fresh_name("sg"), SG)
+        q2 = z3.Const(sv.fresh_name("q2"), PATH.sort())
         bd = CHILD(root, SEG_BLOBS)
         return [
             ("blobs_dir", z3.And(fs.kind[bd] == DIR, fs.kind[root] == DIR)),
@@ -202,9 +222,14 @@ class _Local(FnSpec):
                 ),
             ),
             ("meta_entries_are_files", z3.ForAll([k], z3.Implies(fs.lexists(meta_p(root, k)), fs.kind[meta_p(root, k)] == FILE))),
+            # leftovers of interrupted writes are plain files (possibly incomplete) under their temporary names
+            ("temporary_entries_are_files", z3.ForAll([k], z3.And(z3.Implies(fs.lexists(tmp_blob_p(root, k)), fs.kind[tmp_blob_p(root, k)] == FILE), z3.Implies(fs.lexists(tmp_meta_p(root, k)), fs.kind[tmp_meta_p(root, k)] == FILE)))),
             # the data area and the blob area do not overlap (configuration: data_dir is not inside internal_dir/blobs)
-            ("areas_disjoint", z3.ForAll([q, k], z3.And(loc_p(data, q) != blob_p(root, k), loc_p(data, q) != meta_p(root, k), locdir_p(data, q) != blob_p(root, k), locdir_p(data, q) != meta_p(root, k)))),
-            ("data_ancestors_are_not_blob_files", z3.ForAll([a, k], z3.Implies(IS_ANC(a, data), z3.And(a != blob_p(root, k), a != meta_p(root, k))))),
+            ("areas_disjoint", z3.ForAll([q, sg], z3.And(loc_p(data, q) != CHILD(bd, sg), locdir_p(data, q) != CHILD(bd, sg), tmp_loc_p(data, q) != CHILD(bd, sg)))),
+            ("data_ancestors_are_not_blob_files", z3.ForAll([a, sg], z3.Implies(IS_ANC(a, data), a != CHILD(bd, sg)))),
+            # temporary link names are not path locations (configuration: no committed path ends in ".tmp_link")
+            ("temp_links_are_not_path_locations", z3.ForAll([q, q2], z3.And(tmp_loc_p(data, q) != loc_p(data, q2), tmp_loc_p(data, q) != locdir_p(data, q2)))),
+            ("temp_link_leftovers_are_links", z3.ForAll([q], z3.Implies(fs.lexists(tmp_loc_p(data, q)), fs.kind[tmp_loc_p(data, q)] == LINK))),
             # every entry at a path location is a link to a blob file of this store that exists (no dangling links,
             # no directory where a path is committed)
             (
@@ -300,7 +325,7 @@ class Local_store_blob(_Local):
             ("fetch_returns_the_stored_value", self.val(fs1, so, k) == b),
             ("meta_names_the_codec_that_wrote", PROTO_OF(fs1.content[meta_p(root, k)]) == chosen),
             ("blob_bytes_are_the_codec_encoding", fs1.content[blob_p(root, k)] == ENC(chosen, b)),
-            ("only_this_blob_and_its_meta_written", self.untouched_except(fs0, fs1, [blob_p(root, k), meta_p(root, k)])),
+            ("only_this_blob_and_its_meta_written", self.untouched_except(fs0, fs1, [blob_p(root, k), meta_p(root, k), tmp_blob_p(root, k), tmp_meta_p(root, k)])),
         ]
         out += [("REP_preserved:" + n, c) for n, c in self.REP(fs1, so)]
         return out
@@ -370,7 +395,7 @@ class Local_sync_paths(_Local):
             ("other_path_entries_untouched", z3.ForAll([q], z3.Implies(z3.Not(self.seen(m, k, q)), z3.And(fs1.kind[loc_p(data, q)] == fs0.kind[loc_p(data, q)], fs1.target[loc_p(data, q)] == fs0.target[loc_p(data, q)])))),
             ("blob_area_untouched", z3.ForAll([kk], z3.And(*[z3.And(fs1.kind[p] == fs0.kind[p], fs1.content[p] == fs0.content[p], fs1.complete[p] == fs0.complete[p]) for p in (blob_p(root, kk), meta_p(root, kk))]))),
             ("store_dirs_kept", z3.And(fs1.kind[root] == DIR, fs1.kind[CHILD(root, SEG_BLOBS)] == DIR, fs1.kind[data] == DIR)),
-            ("only_directories_are_created_elsewhere", z3.ForAll([a], z3.Implies(z3.And(fs0.lexists(a), z3.ForAll([q], a != loc_p(data, q))), z3.And(fs1.kind[a] == fs0.kind[a], fs1.target[a] == fs0.target[a])))),
+            ("only_directories_are_created_elsewhere", z3.ForAll([a], z3.Implies(z3.And(fs0.lexists(a), z3.ForAll([q], z3.And(a != loc_p(data, q), a != tmp_loc_p(data, q)))), z3.And(fs1.kind[a] == fs0.kind[a], fs1.target[a] == fs0.target[a])))),
         ]
 
     def inv(self, ctx, env, k):
